@@ -14,7 +14,7 @@ var (
 	profC04 = eng.ProfileFull("C04", map[string]int{"retire": 8, "send": 10, "take": 9, "buy": 10})
 	profC06 = eng.ProfileFull("C06", map[string]int{"sell": 14, "updSell": 12, "cancelSell": 6, "buy": 14, "block": 12, "removeDenom": 2, "addDenom": 2})
 	profC03 = eng.ProfileFull("C03", map[string]int{"sendFromPool": 3, "burnRegen": 2, "buy": 12, "sell": 10, "bankSend": 5})
-	profC05 = withPrelude(eng.ProfileFull("C05", map[string]int{"put": 16, "take": 14, "bankSend": 8, "basketCreate": 5, "createBatch": 8}),
+	profC05 = withPrelude(eng.ProfileFull("C05", map[string]int{"put": 16, "take": 14, "bankSend": 8, "basketCreate": 5, "createBatch": 8, "bulkBasket": 1}),
 		"createClass", "createProject", "createBatch", "createBatch", "basketCreate", "basketCreate", "put", "put", "put", "bankSend", "block")
 	profC13 = withPrelude(eng.ProfileFull("C13", map[string]int{"createBatch": 9, "mint": 9, "bridgeReceive": 12, "bridge": 9, "addBridgeChain": 3, "removeBridgeChain": 2}),
 		"createClass", "addBridgeChain", "bridgeReceive", "bridgeReceive", "createProject", "createBatch", "mint", "bridge", "block")
@@ -24,7 +24,7 @@ var (
 		return p
 	}()
 	profC07 = eng.ProfileFull("C07", map[string]int{"sell": 14, "buy": 22, "setFeeParams": 5, "updSell": 6, "addDenom": 3, "faucet": 2, "put": 3, "take": 3})
-	profC11 = withPrelude(eng.ProfileFull("C11", map[string]int{"put": 20, "take": 16, "basketCreate": 7, "updDateCriteria": 4, "createBatch": 12, "block": 10, "bankSend": 4}),
+	profC11 = withPrelude(eng.ProfileFull("C11", map[string]int{"put": 20, "take": 16, "basketCreate": 7, "updDateCriteria": 4, "createBatch": 12, "block": 10, "bankSend": 4, "bulkBasket": 1}),
 		"createClass", "createProject", "createBatch", "createBatch", "createBatch", "basketCreate", "put", "put", "put", "take", "block")
 	profC08 = eng.ProfileFull("C08", map[string]int{"updClassAdmin": 6, "updClassIssuers": 6, "updClassMeta": 4, "updProjectAdmin": 5, "updProjectMeta": 4, "updBatchMeta": 5,
 		"seal": 4, "mint": 6, "updCurator": 5, "setAllowlist": 3, "addCreator": 3, "removeCreator": 3, "createClass": 6, "createProject": 5, "createBatch": 7,
